@@ -169,6 +169,18 @@ class FLib(Lib):
         L = self.L
         P, S = c_void_p, c_size_t
         self.F_getErrorCode = L.LZ4F_getErrorCode; self.F_getErrorCode.restype = ctypes.c_int; self.F_getErrorCode.argtypes = [S]
+        self.peek = hasattr(L, "verif_dctx_stage")
+        if self.peek:
+            for n in ("verif_cctx_alloc", "verif_cctx_type", "verif_cctx_stage", "verif_dctx_stage", "verif_dctx_skip"):
+                f = getattr(L, n); f.restype = ctypes.c_int; f.argtypes = [P]
+            for n in ("verif_dctx_remaining", "verif_dctx_tmpInSize", "verif_dctx_tmpInTarget", "verif_dctx_maxBlockSize", "verif_dctx_maxBufferSize"):
+                f = getattr(L, n); f.restype = ctypes.c_ulonglong; f.argtypes = [P]
+    def dstate(self, ctx):
+        """the private dctx fields the model mirrors: stage, frameRemainingSize, tmpInSize, tmpInTarget, maxBlockSize, maxBufferSize, skipChecksum"""
+        L = self.L
+        return "%d,%d,%d,%d,%d,%d,%s" % (L.verif_dctx_stage(ctx), L.verif_dctx_remaining(ctx), L.verif_dctx_tmpInSize(ctx),
+                                         L.verif_dctx_tmpInTarget(ctx), L.verif_dctx_maxBlockSize(ctx), L.verif_dctx_maxBufferSize(ctx),
+                                         "true" if L.verif_dctx_skip(ctx) else "false")
 
 class FrameInfo(ctypes.Structure):
     _fields_ = [("blockSizeID", ctypes.c_int), ("blockMode", ctypes.c_int), ("contentChecksumFlag", ctypes.c_int),
@@ -278,8 +290,9 @@ class MDctx:
                          "1" if dict_ is not None else "0").split()
         if len(a) < 8:
             raise RuntimeError("oracle: " + " ".join(a))
+        st = [x for x in a if x.startswith("st=")]
         return {"consumed": int(a[0]), "produced": int(a[1]), "ret": int(a[2]), "fuel": a[3], "oob": a[4], "stage": a[5],
-                "outlen": int(a[6]), "outmd5": a[7]}
+                "outlen": int(a[6]), "outmd5": a[7], "state": st[0][3:] if st else None}
     def reset(self):
         self.orc.ask("reset", self.id)
     def frame_info(self, src):
@@ -358,6 +371,7 @@ class Session:
         self.md = md or MDctx(self.orc)
         self.trace = []
         self.calls = 0
+        self.stages = {}
     def call(self, src, cap, dstnull=False, skip=False, stable=False, dict_=None, dictbuf=None, salt=0):
         """one LZ4F_decompress call on both sides.  Returns (kind, info):
         kind 'ok' -> info = (consumed, produced bytes, ret); 'corr' / 'prop' -> info = description"""
@@ -383,6 +397,11 @@ class Session:
                 self.calls, len(src), cap, c_cons, c_prod, c_ret, m["consumed"], m["produced"], m["ret"], m["stage"])))
         elif md5(img[:m["outlen"]]) != m["outmd5"]:
             problems.append(("corr", "call %d: output bytes differ (%d bytes)" % (self.calls, m["outlen"])))
+        elif self.lib.peek and c_ret >= 0 and m["state"] is not None:
+            cs = self.lib.dstate(self.cd.ctx)
+            self.stages[m["stage"]] = self.stages.get(m["stage"], 0) + 1
+            if cs != m["state"]:
+                problems.append(("corr", "call %d: context fields (stage,remaining,tmpInSize,tmpInTarget,maxBlockSize,maxBufferSize,skip) code %s model %s" % (self.calls, cs, m["state"])))
         if problems:
             if problems[0][0] == "corr":
                 cls = self.classify_blockdec()
